@@ -8,7 +8,7 @@ import ast
 from sa import callgraph, absflow
 from sa.absflow import AbsInterp, TupleV, NONE, hull, run_function
 from sa.absint import AV, TOP, INF, const
-from sa.astutil import (effective, call_name, calls_in, dotted, norm, walk_no_nested, last_attr,
+from sa.astutil import (facts_at, effective, call_name, calls_in, dotted, norm, walk_no_nested, last_attr,
                         func_params, fact_texts, names_in, try_fold)
 from sa.loader import AnalysisError
 from sa.canon import canon
@@ -673,6 +673,25 @@ def run(ctx):
     # the averaged buried fraction (and every other averaged field) stays an average
     from checks import common
     common.check_linear_fields(ctx, 'C16.R1', prog)
+
+    # ---------------------------------------------------------- R7 swapped determinants
+    # The coupled-residue display mode (-d) leaves the determinants of a coupled
+    # pair exchanged.  For two acids or two bases the exchanged values keep the
+    # right sign; for an acid-base pair the acid ends up with +V from the base.
+    # So a pair may be registered as coupled only if both charges have one sign.
+    cgm = prog.mod('coupled_groups')
+    ident = cgm.func('NonCovalentlyCoupledGroups.identify_non_covalently_coupled_groups')
+    regs = [c for c in calls_in(ident) if last_attr(c) == 'couple_non_covalently']
+    like = False
+    if regs:
+        for e, pol in facts_at(regs[0], ident):
+            if any(isinstance(x, ast.Attribute) and x.attr == 'charge' for x in ast.walk(e)):
+                like = True
+    ctx.ob('C16.R7', 'coupling:like-charged-pairs-only', like,
+           'a pair is registered as non-covalently coupled (and its determinants exchanged under -d) '
+           'only when a condition on the two charges holds; without one an acid-base salt bridge is '
+           'swapped too and both Coulomb determinants get the destabilising sign', cgm,
+           regs[0] if regs else ident)
 
     # ---------------------------------------------------------- R6 value writers
     # The bounds above are bounds on the value expression of every
